@@ -3,6 +3,7 @@
 import XsdataModel.Proofs.C15NoLeak
 import XsdataModel.Proofs.C15Witness
 import XsdataModel.Fault.Doc
+import XsdataModel.Proofs.C15Dict
 
 namespace Props.C15
 open Py Xs.Bind Xs.Fault Proofs.C15
@@ -109,5 +110,86 @@ example : Tok.isRaised (.tree Witness.docMissing) = false ∧ Tok.isRaised .synt
 /-- not well-formed ⇒ rejected, with `ParserError` -/
 theorem malformed_rejected (e : BEnv) (Γ : Ctx) (cfg : ParserConfig) (c : ClassId) :
     ∃ m, parseDocument e Γ cfg c .syntaxError = .error (.parser m) := ⟨_, rfl⟩
+
+
+/-! ## JSON: `JsonParser.parse` / `DictDecoder.decode` -/
+
+/-- the full-strength statement for the JSON side: whatever `json.load` does with the
+bytes and whatever shape the loaded value has, only documented errors come out -/
+def NoLeakJson : Prop :=
+  ∀ (e : BEnv) (Γ : Ctx) (cfg : ParserConfig) (fuel : Nat) (c : ClassId) (listOf : Bool) (l : Loaded) (py : String),
+    parseJson e Γ cfg fuel c listOf l ≠ .error (.leaked py)
+
+/-- It is false of the code as it stands; one concrete document per leaking site
+(each is replayed on the real code as a known finding):
+`5` → AttributeError, `{"x": {"a": 1}}` (x: Optional[int]) → AssertionError,
+`{"at": 5}` / `{"at": "s"}` (at: xs:anyAttribute) → TypeError / ValueError,
+`{"t": [null]}` (t: tokens) → TypeError, `{"b": ["a"]}` (b wrapped in "items") → TypeError,
+`{"x": {"qname": "q", "type": [1], "value": {}}}` → TypeError (unhashable),
+`[5]` for `list[Doc]` → AttributeError; and what `json.load` itself raises. -/
+theorem no_leak_json_counterexamples :
+    decode Witness.env Witness.jctx {} 16 Witness.Doc false (.int 5) = .error (.leaked "AttributeError") ∧
+    decode Witness.env Witness.jctx {} 16 Witness.Doc false (Witness.o [("x", Witness.o [("a", .int 1)])])
+      = .error (.leaked "AssertionError") ∧
+    decode Witness.env Witness.jctx {} 16 Witness.Doc false (Witness.o [("at", .int 5)]) = .error (.leaked "TypeError") ∧
+    decode Witness.env Witness.jctx {} 16 Witness.Doc false (Witness.o [("at", .str ['s'])]) = .error (.leaked "ValueError") ∧
+    decode Witness.env Witness.jctx {} 16 Witness.Doc false (Witness.o [("t", .arr [.null])]) = .error (.leaked "TypeError") ∧
+    decode Witness.env Witness.jctx {} 16 Witness.Doc false (Witness.o [("b", .arr [.str ['a']])]) = .error (.leaked "TypeError") ∧
+    decode Witness.env Witness.jctx {} 16 Witness.Doc false
+      (Witness.o [("x", Witness.o [("qname", .str ['q']), ("type", .arr [.int 1]), ("value", Witness.o [])])])
+      = .error (.leaked "TypeError") ∧
+    decode Witness.env Witness.jctx {} 16 Witness.Doc true (.arr [.int 5]) = .error (.leaked "AttributeError") ∧
+    parseJson Witness.env Witness.jctx {} 16 Witness.Doc false .decodeError = .error (.leaked "JSONDecodeError") ∧
+    parseJson Witness.env Witness.jctx {} 16 Witness.Doc false .unicodeError = .error (.leaked "UnicodeDecodeError") ∧
+    parseJson Witness.env Witness.jctx {} 16 Witness.Doc false .recursionError = .error (.leaked "RecursionError") ∧
+    parseJson Witness.env Witness.jctx {} 16 Witness.Doc false .intLimit = .error (.leaked "ValueError") :=
+  ⟨rfl, rfl, rfl, rfl, rfl, rfl, rfl, rfl, rfl, rfl, rfl, rfl⟩
+
+theorem no_leak_json_false : ¬ NoLeakJson := fun h =>
+  h Witness.env Witness.jctx {} 16 Witness.Doc false (.value (.int 5)) "AttributeError" rfl
+
+/-- **dict_leak_kinds.** The leaks of `DictDecoder.decode` form a closed list: for every
+universe, config, target and EVERY loaded JSON value the outcome is a value, ParserError,
+ConverterError, XmlContextError (or `unsupported`), or one of AttributeError,
+AssertionError, TypeError, ValueError, KeyError — nothing else, at any nesting depth
+(`bind_best_dataclass` swallows what its candidates raise). -/
+theorem dict_leak_kinds (e : BEnv) (Γ : Ctx) (cfg : ParserConfig) (fuel : Nat) (c : ClassId) (listOf : Bool)
+    (data : J) (py : String) (h : decode e Γ cfg fuel c listOf data = .error (.leaked py)) :
+    py ∈ dictLeaks := by
+  have hc := decode_dclean e Γ cfg fuel c listOf data
+  rw [h] at hc
+  simpa [DClean, dcleanB, Err.dictSide] using hc
+
+/-- … and never a SerializerError -/
+theorem dict_no_serializer_error (e : BEnv) (Γ : Ctx) (cfg : ParserConfig) (fuel : Nat) (c : ClassId) (listOf : Bool)
+    (data : J) (m : String) : decode e Γ cfg fuel c listOf data ≠ .error (.serializer m) := by
+  intro h
+  have hc := decode_dclean e Γ cfg fuel c listOf data
+  rw [h] at hc
+  cases hc
+
+/-- **no_leak_dict_partial.** A flat document — a JSON object whose members are scalars,
+null or arrays of non-null scalars, and whose key set is not {qname, type, value} — decoded
+into a class without `xs:anyAttribute` and without wrapped list fields never leaks:
+the outcome is an instance, ParserError or ConverterError/XmlContextError. -/
+theorem no_leak_dict_partial (e : BEnv) (Γ : Ctx) (cfg : ParserConfig) (fuel : Nat) (c : ClassId) (data : J)
+    (hd : flatDoc data = true) (hc : plainClass Γ c = true) (py : String) :
+    parseJson e Γ cfg fuel c false (.value data) ≠ .error (.leaked py) :=
+  (decode_flat_clean e Γ cfg fuel c data hd hc).not_leaked py
+
+example :
+    flatDoc (Witness.o [("x", .str "12x".toList), ("t", .arr [.int 1, .str ['a']]), ("zz", .null)]) = true ∧
+    plainClass Witness.jctx Witness.Plain = true ∧ plainClass Witness.jctx Witness.Doc = false :=
+  ⟨by decide, by decide, by decide⟩
+
+/-- both hypotheses of `no_leak_dict_partial` are needed: a flat document leaks on the
+class with the `xs:anyAttribute` field, and a non-flat one on the plain class -/
+theorem no_leak_dict_partial_sharp :
+    (flatDoc (Witness.o [("at", .int 5)]) = true ∧
+      decode Witness.env Witness.jctx {} 16 Witness.Doc false (Witness.o [("at", .int 5)]) = .error (.leaked "TypeError")) ∧
+    (plainClass Witness.jctx Witness.Plain = true ∧
+      decode Witness.env Witness.jctx {} 16 Witness.Plain false (Witness.o [("x", Witness.o [])])
+        = .error (.leaked "AssertionError")) :=
+  ⟨⟨by decide, rfl⟩, ⟨by decide, rfl⟩⟩
 
 end Props.C15
